@@ -75,6 +75,8 @@ pub struct PSim {
     pub nwaitpid: u64,
     /// virtual time that passes with every clock reading (time goes by while the library runs)
     pub clock_step: u64,
+    /// thread that forked the child (waitpid with __WNOTHREAD only sees the calling thread's own children)
+    pub creator_tid: i64,
 }
 
 pub static mut PSIM: Option<Box<PSim>> = None;
@@ -118,6 +120,7 @@ impl PSim {
             eintr_at: vec![],
             nwaitpid: 0,
             clock_step: 0,
+            creator_tid: unsafe { libc::syscall(libc::SYS_gettid) } as i64,
         }
     }
 
@@ -281,6 +284,12 @@ impl PSim {
         self.env_due();
         let nohang = flags & libc::WNOHANG != 0;
         self.nwaitpid += 1;
+        if flags & 0x2000_0000 != 0 && unsafe { libc::syscall(libc::SYS_gettid) } as i64 != self.creator_tid {
+            // __WNOTHREAD from a thread that did not fork the child: the kernel finds no such child
+            self.log(json!({"e":"waitpid_nothread","pid":VPID,"nohang":nohang}));
+            crate::raw::set_errno(libc::ECHILD);
+            return -1;
+        }
         if self.eintr_at.contains(&self.nwaitpid) {
             // a signal handler (installed without SA_RESTART) ran while the call was waiting
             self.log(json!({"e":"waitpid_eintr","pid":VPID,"nohang":nohang}));
